@@ -79,6 +79,10 @@ EXPLANATION += (
     ' Round 15: no worker count takes a code path of its own (R-PROV/worker-count-special-case, rule of C04).'
 )
 
+EXPLANATION += (
+    ' Round 16: a candidate unsigned type is admitted at most up to its capacity (R-CAP/fits-predicate).'
+)
+
 RULE_TEXT = (
     "one obligation per step / chunk-extent site, per range relation of "
     "the dispatch loop, per piece-list mutation, per dispatcher x member")
